@@ -23,7 +23,9 @@ RULE = (
     "'(target)=' that the text *after* the wrapper uses. W = 1-4 nested admonition-type directives (10 names, backtick "
     "or colon fence one longer than any inner fence, with / without an option block of either style, 0-2 blank lines "
     "before the body), or an include of a file containing X, or a block substitution whose value is X, each "
-    "optionally inside further directives. Oracle (metamorphic, no model of the renderer): (pre-transform) the "
+    "optionally inside further directives; plus (fences) every combination of fence character x option block x blank "
+    "line per layer to depth 3 (thorough: 4) around six small bodies whose first line is itself a fence, div or field "
+    "list. Oracle (metamorphic, no model of the renderer): (pre-transform) the "
     "children of the innermost wrapper node in parse(before + W(X) + after) equal the nodes between 'before' and "
     "'after' in parse(before + X + after), compared as pformat() with line / source masked; (post-transform) the "
     "published tree of the wrapped document with every wrapper node replaced by its children equals the published "
@@ -260,8 +262,51 @@ def sub_subst(acc, shard, nshards, tier, seed):
             seed=shard_seed(seed, shard, 8), is_known=known().matches)
 
 
+def _para(s):
+    return {"t": "para", "inl": [{"t": "text", "s": s}]}
+
+
+X_VARIANTS = {
+    "para": [_para("alpha"), _para("beta")],
+    "div-first": [{"t": "div", "name": "cls", "ch": [_para("alpha")], "len": 3}, _para("beta")],
+    "colon-directive-first": [{"t": "directive", "name": "tip", "arg": "", "raw": None, "opts": [], "optstyle": "colon", "blank": 0,
+                               "fence": ":", "len": None, "ch": [_para("alpha")]}, _para("beta")],
+    "code-first": [{"t": "code", "fence": "`", "len": 3, "lang": "python", "text": "x = 1"}, _para("beta")],
+    "fieldlist-first": [{"t": "fieldlist", "items": [["field", [_para("alpha")]]]}, _para("beta")],
+    "quote-list": [{"t": "quote", "ch": [{"t": "ul", "marker": "-", "tight": True, "items": [[_para("alpha")], [_para("beta")]]}]}],
+}
+
+
+def sub_fences(acc, shard, nshards, tier, seed):
+    """Every combination of fence character x option block x blank line per layer, to depth 3 (thorough: 4), around small
+    bodies whose first line is itself a fence / div / field list (the shapes where the fence and option syntaxes meet)."""
+    import itertools
+
+    kn = known()
+    per_layer = [(f, o, b) for f in "`:" for o in (False, True) for b in (0, 1)]
+    i = 0
+    maxdepth = 3 if tier == "quick" else 4
+    for depth in range(1, maxdepth + 1):
+        choices = per_layer if depth <= 3 else [(f, False, b) for f in "`:" for b in (0, 1)]
+        for combo in itertools.product(choices, repeat=depth):
+            for xname, x in X_VARIANTS.items():
+                i += 1
+                if i % nshards != shard:
+                    continue
+                layers = [{"name": "note" if k % 2 == 0 else "admonition", "fence": f, "opts": o, "optstyle": "colon" if k % 2 else "dash",
+                           "blank": b} for k, (f, o, b) in enumerate(combo)]
+                case = {"x": copy.deepcopy(x), "inner": "dir", "layers": layers, "outer_use": depth == 2}
+                for v in check_case(acc, case):
+                    if kn.matches(v):
+                        acc.known_hits[v["signature"]] += 1
+                    elif len(acc.violations) < 8 and all(v["signature"] != w["signature"] for w in acc.violations):
+                        acc.violations.append(v)
+    acc.exhaustive = True
+    acc.extra["fence_layout_depth"] = maxdepth
+
+
 def plan(tier):
-    return [Sub("dir", sub_dir, 8), Sub("include", sub_include, 4), Sub("subst", sub_subst, 4)]
+    return [Sub("fences", sub_fences, 16), Sub("dir", sub_dir, 8), Sub("include", sub_include, 4), Sub("subst", sub_subst, 4)]
 
 
 def replay(sub, input):
